@@ -184,6 +184,12 @@ var ins4 = [][]ugo.Object{{ugo.Int(0)}, {ugo.Int(1)}, {ugo.Int(2)}, {ugo.String(
 // large runs one generated large program given as final source text; programs whose version-1 form does not fit, or
 // that do not grow beyond 64 KiB, are counted and skipped.
 func large(c *fw.Ctx, key, src string, inputs [][]ugo.Object) {
+	rawProgram(c, key, src, inputs, true)
+}
+
+// rawProgram compares a program given as final source text with its version-1 form; mustGrow: only programs that cross
+// 64 KiB when widened are of interest.
+func rawProgram(c *fw.Ctx, key, src string, inputs [][]ugo.Object, mustGrow bool) {
 	if c.Skip(key) {
 		return
 	}
@@ -207,12 +213,14 @@ func large(c *fw.Ctx, key, src string, inputs [][]ugo.Object) {
 		c.Count("skipped_positions_beyond_16_bits", 1)
 		return
 	}
-	if !big {
-		c.Count("growth_programs_below_64KiB", 1)
-		return
+	if mustGrow {
+		if !big {
+			c.Count("growth_programs_below_64KiB", 1)
+			return
+		}
+		c.Count("growth_programs_crossing_64KiB", 1)
 	}
 	c.Nontrivial()
-	c.Count("growth_programs_crossing_64KiB", 1)
 	c.Sample(key)
 	dec, err := func() (d *ugo.Bytecode, err error) {
 		defer func() {
@@ -294,6 +302,39 @@ func run11(c *fw.Ctx) {
 				body()
 			}
 			large(c, fmt.Sprintf("growth N=%d nested=%v", n, nested), sb.String(), ins4)
+		}
+	}
+	// a failing callee whose call is directly followed by a jump instruction, in constructs that span several lines:
+	// the caller's frame reports the position of the instruction after the call, i.e. of the jump
+	c.Family("jump-adjacent-calls", "calls of a failing function as condition of if / for / ?: / && / || written over several lines, in main, in a function and inside try")
+	bad := "bad := func(v) {\n  return 1 / (v - v)\n}\n"
+	shapes := []string{
+		"if bad(x) {\n  L(1)\n}\n",
+		"if x == 9 {\n  L(1)\n} else if bad(x) {\n  L(2)\n}\n",
+		"for bad(x) {\n  L(1)\n  break\n}\n",
+		"for i := 0; bad(i); i++ {\n  L(1)\n}\n",
+		"r := x == 9 ?\n  1 :\n  bad(x)\n",
+		"r := x != 9 ?\n  bad(x) :\n  2\n",
+		"r := bad(x) ?\n  1 :\n  2\n",
+		"r := (x != 9 &&\n  bad(x))\n",
+		"r := (x == 9 ||\n  bad(x) ||\n  L(3))\n",
+		"r := [\n  1,\n  bad(x) ? 1 : 2,\n]\n",
+	}
+	for _, sh := range shapes {
+		for place := 0; place < 3; place++ {
+			if !c.Next() {
+				continue
+			}
+			var src string
+			switch place {
+			case 0:
+				src = "param (x); global (L)\n" + bad + sh + "return 7\n"
+			case 1:
+				src = "param (x); global (L)\n" + bad + "f := func(x) {\n" + sh + "return 7\n}\nreturn f(x)\n"
+			default:
+				src = "param (x); global (L)\n" + bad + "try {\n" + sh + "} finally {\n  L(9)\n}\nreturn 7\n"
+			}
+			rawProgram(c, fmt.Sprintf("jump-adjacent shape=%q place=%d", sh, place), src, ins4, false)
 		}
 	}
 	c.Family("jump-grammar", "if/else chains, loops, logical operators, ?:, try - nesting <= 1 (thorough 2), sequences <= 2, x inputs {0,1,2,\"x\"}")
